@@ -48,7 +48,8 @@ def fault_stmts(rnd, kind, W, trigger):
     el = rnd.choice(('int', 'byte', 'bool'))
     L = rnd.choice((1, 2, 3, 5, 8, 9)) if el != 'bool' else rnd.choice((1, 7, 8, 9, 17))
     if kind in ('div', 'mod', 'div_aug', 'mod_aug'):
-        val = 0 if trigger else rnd.choice((1, -1, 2))
+        harmless = rnd.choice((1, -1, 2))
+        val = 0 if trigger else harmless
         op = '/' if kind.startswith('div') else '%'
         left = rnd.choice((I(7), I(-9), C(200), I(maxs), I(-maxs - 1)))
         if kind in ('div', 'mod'):
@@ -57,8 +58,9 @@ def fault_stmts(rnd, kind, W, trigger):
             t = rnd.choice(('int', 'byte'))
             stmts = [block(decl(t, 'ft', I(77)), aug(op, 'ft', V('fz') if t == 'int' else is_(V('fz'), 'byte')),
                            write(is_(V('ft'), 'int')), write(C('~')))]
+            h2 = rnd.choice((1, 2, 255))
             if t == 'byte' and not trigger:
-                val = rnd.choice((1, 2, 255))
+                val = h2
         return stmts, val, 'division_by_zero'
     if kind == 'bad_len':
         if el == 'int':
@@ -67,13 +69,19 @@ def fault_stmts(rnd, kind, W, trigger):
             bad = rnd.choice((-1, -maxs - 1, -2))
         else:
             bad = rnd.choice((-1, -7, -8, -9, -maxs - 1))
-        val = bad if trigger else rnd.choice((0, 1, 2))
-        stmts = [block(dyn(el, 'fa', V('fz')), write(ln('fa')), write(C('~')))]
+        harmless = rnd.choice((0, 1, 2))
+        val = bad if trigger else harmless
+        pre = []
+        if rnd.random() < 0.5:
+            # an array literal declared earlier in the same block
+            pre = [decl(arr('int'), 'fl', ('arr', (V('fz'), I(2), I(3), I(4))), True), write(idx('fl', I(1)))]
+        stmts = [block(*pre, dyn(el, 'fa', V('fz')), write(ln('fa')), write(C('~')))]
         return stmts, val, 'stack_overflow'
     if kind == 'str_idx':
         text = ''.join(chr(rnd.randrange(32, 127)) for _ in range(L))
         bad = rnd.choice((L, -1, maxs, -maxs - 1, L + 1))
-        val = bad if trigger else rnd.choice((0, L - 1))
+        harmless = rnd.choice((0, L - 1))
+        val = bad if trigger else harmless
         src = S(text.encode()) if rnd.random() < 0.5 else None
         if src is None:
             stmts = [block(decl('string', 'fs', S(text.encode())), write(is_(idx('fs', V('fz')), 'int')), write(C('~')))]
@@ -82,7 +90,8 @@ def fault_stmts(rnd, kind, W, trigger):
         return stmts, val, 'out_of_bounds'
     # array index faults
     bad = rnd.choice((L, -1, maxs, -maxs - 1, L + 1, 8 * L if el == 'bool' else L + 7))
-    val = bad if trigger else rnd.choice((0, L - 1))
+    harmless = rnd.choice((0, L - 1))
+    val = bad if trigger else harmless
     storage = rnd.choice(('literal', 'dynamic', 'alias', 'const'))
     if kind != 'idx_read' and storage == 'const':
         storage = 'literal'
